@@ -354,7 +354,7 @@ def run(ck, facts):
     for n in C.walk_inl(facts.macro, C.fn_body(g), max_nodes=1500):
         if n.get("k") == "macro" and n.get("name") in ("parse_quote", "quote"):
             src = n.get("src", "")
-            if "Box<" in src and "destroy" in src:
+            if re.search(r"\bthis\s*:\s*Box\s*<", src):     # the one template with a by-value Box parameter: the destructor
                 found = True
                 body_empty = re.search(r"\(\s*this\s*:\s*Box<\s*#\w+\s*(#\w+\s*)?>\s*\)\s*\{\s*\}", src) is not None
                 ck.expect(body_empty, "R4", "macro::gen_bridge/destroy-template", "fn #destroy_ident(this: Box<#T>) {}", "the destroy template is no longer `(this: Box<T>) {}`: " + src[:200], C.loc(g, n.get("ln")))
